@@ -47,10 +47,17 @@ class CaptureClient:
     def __init__(self):
         self.events = []
         self.lock = threading.Lock()
+        self.hb_go = None          # set by run_script(race=True): the forced end-of-run race window
+        self.in_running = None
 
     def emit(self, event):
+        kind = str(event.eventType).split('.')[-1]
+        if kind == 'RUNNING' and self.hb_go is not None and self.hb_go.is_set():
+            self.in_running.set()
+            import time as _t
+            _t.sleep(0.004)        # a slow backend: the heartbeat is inside emit() while the main thread ends the run
         with self.lock:
-            self.events.append((str(event.eventType).split('.')[-1], event.run.runId))
+            self.events.append((kind, event.run.runId))
 
 
 class Boom(Exception):
@@ -132,7 +139,7 @@ def make_filter_class(script, rec, w=None, meta=None):
     return Scripted
 
 
-def run_script(script, with_lineage=True, beats=0):
+def run_script(script, with_lineage=True, beats=0, race=False):
     """-> dict(trace, result, stop_set, open_sockets, announced, events)"""
     rec = []
     w = LifeWorld()
@@ -166,14 +173,31 @@ def run_script(script, with_lineage=True, beats=0):
         of_filter.time = fake_time
         if with_lineage:
             emitter = OpenFilterLineage(client=cap, interval=3600)
-            if beats:
-                # force `beats` extra RUNNING heartbeats, then block like a long interval
+            if beats or race:
+                # force `beats` extra RUNNING heartbeats, then block like a long interval; with race=True one more
+                # heartbeat pass is released exactly when the main thread starts ending the run, and that RUNNING
+                # is held inside the (slow) client while the terminal event is emitted
                 ev = emitter._stop_event
                 n = [0]
                 real_wait = ev.wait
+                hb_go, in_running = threading.Event(), threading.Event()
+                if race:
+                    cap.hb_go, cap.in_running = hb_go, in_running
+                    orig_stop = emitter.stop_lineage_heart_beat
+                    def stop():
+                        if emitter._thread is not None and emitter._thread.is_alive() and not ev.is_set() and not hb_go.is_set():
+                            hb_go.set()
+                            in_running.wait(0.05)
+                        orig_stop()
+                    emitter.stop_lineage_heart_beat = stop
                 def wait(t=None):
                     n[0] += 1
-                    return ev.is_set() if n[0] <= beats else real_wait(t)
+                    if n[0] <= beats:
+                        return ev.is_set()
+                    if race and n[0] == beats + 1:
+                        hb_go.wait(5)
+                        return ev.is_set()
+                    return real_wait(t)
                 ev.wait = wait
         cls.emitter = emitter
         Filter.emitter = emitter
